@@ -27,6 +27,19 @@ def configs(tier):
                 yield dict(name="%s-%s-%d" % (what, kind, p), what=what, backend="py", kind=kind, P=p,
                            fork=(kind == "lin"), cost=(p + 1) ** 3 * (3 if what in ("additive", "two") else 1),
                            split_forks=(6 if p >= 5 and what in ("additive", "two") else None))
+        # query / modify / query sequences on ONE object (results must never depend on what was asked
+        # before: cached or lazily computed state that a later in-place operation forgets to refresh)
+        for p in ((1, 2, 3) if tier == "quick" else (1, 2, 3, 4)):
+            for seq in HIST_SEQS:
+                if tier == "quick" and p == 3 and "A" in seq:
+                    continue
+                yield dict(name="hist-%s-%d-%s" % (kind, p, seq), what="hist", backend="py", kind=kind, P=p,
+                           seq=seq, fork=(kind == "lin"), cost=(p + 1) ** 3 * 4 * len(seq))
+
+
+# Q = integral(a,b), integral(), avrg(a,b), f(t) checked against the oracle on the current state;
+# M = mul_scalar(symbolic), A = add(symbolic 2-piece function), C = continue on a copy
+HIST_SEQS = ["QMQ", "QAQ", "QMAQ", "QAMQ", "QCMQ", "QQ", "MQMQ"]
 
 
 def controls(tier):
@@ -93,6 +106,39 @@ def program(E, cfg):
             E.prove(E.eq(full, integral_oracle(f, ts, te)), "integral without interval = integral over the support")
             E.prove(E.eq(f.integral((ts, te)), full), "integral over the full support = integral without interval")
             E.prove(E.eq(f.avrg() * (te - ts), full), "avrg without interval")
+        elif what == "hist":
+            a, b = sub_interval(E, "", ts, te)
+            t = E.fresh("t")
+            E.assume(t >= ts)
+            E.assume(t <= te)
+            nq = 0
+            nm = 0
+            for op in cfg["seq"]:
+                if op == "Q":
+                    nq += 1
+                    tag = "query %d of %s: " % (nq, cfg["seq"])
+                    I = f.integral((a, b))
+                    E.observe("integral#%d" % nq, I)
+                    E.prove(E.eq(I, integral_oracle(f, a, b)), tag + "integral over [a,b] = exact integral of the current function")
+                    full = f.integral()
+                    E.observe("full#%d" % nq, full)
+                    E.prove(E.eq(full, integral_oracle(f, ts, te)), tag + "integral without interval")
+                    E.prove(E.eq(f.integral((ts, te)), full), tag + "integral over the full support = integral without interval")
+                    E.prove(E.eq(f.avrg((a, b)) * (b - a), integral_oracle(f, a, b)), tag + "avrg = integral / length")
+                    E.prove(E.eq(f.avrg() * (te - ts), full), tag + "avrg without interval")
+                    E.prove(E.eq(f(t), value_oracle(f, t)), tag + "f(t)")
+                elif op == "M":
+                    c = E.fresh("c%d" % nm)
+                    nm += 1
+                    f.mul_scalar(c)
+                elif op == "A":
+                    g = mkfun(E, "g%d" % nm, 2, ts, te, cfg["kind"])
+                    nm += 1
+                    f.add(g)
+                else:
+                    old = f
+                    f = f.copy()
+                    E.prove(E.eq(old.integral(), f.integral()), "copy has the same integral")
         elif what == "additive":
             a, b = sub_interval(E, "", ts, te)
             c = E.fresh("c")
